@@ -588,6 +588,288 @@ impl Scenario for C04StdEdge {
 }
 
 // ---------------------------------------------------------------------------------------------
+// Damaged source text, as a snippet and as an imported file; every error rendered in every format
+// ---------------------------------------------------------------------------------------------
+
+#[derive(Serialize, Deserialize, Clone, Debug, PartialEq, Eq)]
+pub struct SourcePlan {
+	pub salt: Option<u64>,
+	/// (source text, evaluate it as an imported file instead of as the snippet)
+	pub sources: Vec<(String, bool)>,
+}
+
+pub struct C04Source;
+
+impl Scenario for C04Source {
+	type Plan = SourcePlan;
+	fn name(&self) -> &'static str {
+		"c04_source"
+	}
+	fn property(&self) -> &'static str {
+		"C04"
+	}
+	fn components(&self) -> Value {
+		json!({
+			"real": ["lexer and parser", "static analysis of locals", "evaluator", "stdlib", "manifestation", "error construction", "CompactFormat trace rendering (every path style, several trace lengths)"],
+			"stub": ["damaged library files are served from memory (MapResolver)"]
+		})
+	}
+	fn generate(&self, rng: &mut Rng, tier: Tier) -> SourcePlan {
+		let max = match tier {
+			Tier::Quick => 12,
+			Tier::Thorough => 30,
+		};
+		let n = rng.range(3, max);
+		let mut sources = Vec::new();
+		for _ in 0..n {
+			let base = loop {
+				let p = gen_prog(rng);
+				// runaway programs are about the frame limit, not about source text; keep the rest
+				if p.family != "runaway" && p.ext.is_empty() && p.tla.is_empty() {
+					break p;
+				}
+			};
+			sources.push((crate::mutate::mutate(&base.code, rng), rng.chance(1, 4)));
+		}
+		SourcePlan {
+			salt: if rng.chance(1, 2) { None } else { Some(rng.next_u64()) },
+			sources,
+		}
+	}
+	fn execute(&self, plan: &SourcePlan, rec: &mut Recorder) {
+		jrsonnet_interner::verif::set_hash_salt(plan.salt);
+		let host = Host::new();
+		host.all_formats.set(true);
+				let mut errors = 0u32;
+		for (i, (src, as_import)) in plan.sources.iter().enumerate() {
+			rec.op();
+			let mut prog = if *as_import {
+				let mut p = Prog::adhoc("damaged-import", format!("import 'damaged{i}.libsonnet'"));
+				p.libs.insert(format!("/lib/damaged{i}.libsonnet"), src.clone());
+				p
+			} else {
+				Prog::adhoc("damaged-source", src.clone())
+			};
+			for (k, v) in crate::pool::all_lib_texts() {
+				prog.libs.entry(k).or_insert(v);
+			}
+			let o = host.run(&prog, Some(200));
+			rec.event(format!("src{i} import={as_import} {:?} -> ok={} class={}", src.chars().take(200).collect::<String>(), o.ok, o.class));
+			rec.state(hash_str(&format!("{}|{}", o.class, o.text.chars().take(24).collect::<String>())));
+			if !o.ok {
+				errors += 1;
+				rec.fault(&format!("evaluation ended in error: {}", o.class));
+			}
+			check_quiescent(rec, &[&host.state], &format!("after src{i}"));
+			if rec.violated() {
+				return;
+			}
+		}
+		let (c, want) = canary();
+		rec.op();
+		let o = host.run(&c, None);
+		if !o.ok || !same_json(&o.text, want) {
+			rec.violate(
+				"thread-unusable-after-errors",
+				"canary",
+				format!("after {} damaged sources ({errors} errors) the canary program gave ok={} {:?}, expected {want}", plan.sources.len(), o.ok, o.text.chars().take(300).collect::<String>()),
+			);
+		}
+	}
+	fn shrink(&self, plan: &SourcePlan) -> Vec<SourcePlan> {
+		let mut out = Vec::new();
+		for i in (0..plan.sources.len()).rev() {
+			if plan.sources.len() > 1 {
+				let mut p = plan.clone();
+				p.sources.remove(i);
+				out.push(p);
+			}
+		}
+		for i in 0..plan.sources.len() {
+			if plan.sources[i].1 {
+				let mut p = plan.clone();
+				p.sources[i].1 = false;
+				out.push(p);
+			}
+			// shorter text: drop the second half, the first half, single lines
+			let src = &plan.sources[i].0;
+			let n = src.chars().count();
+			if n > 1 {
+				let mid = src.char_indices().nth(n / 2).map_or(src.len(), |(k, _)| k);
+				for cand in [src[..mid].to_owned(), src[mid..].to_owned()] {
+					let mut p = plan.clone();
+					p.sources[i].0 = cand;
+					out.push(p);
+				}
+			}
+		}
+		if plan.salt.is_some() {
+			let mut p = plan.clone();
+			p.salt = None;
+			out.push(p);
+		}
+		out
+	}
+}
+
+// ---------------------------------------------------------------------------------------------
+// The explaining trace format of the executable on damaged and multi-line sources (supervised children)
+// ---------------------------------------------------------------------------------------------
+
+#[derive(Serialize, Deserialize, Clone, Debug, PartialEq, Eq)]
+pub struct ExplainPlan {
+	pub source: String,
+	pub max_trace: Option<usize>,
+	/// which fixed probe this is, if any ("F28", "F30", "F31", "eof")
+	pub probe: Option<String>,
+}
+
+pub struct C04Explain;
+
+const F31_PROGRAM: &str = "!std.objectFields({ [|||\n  x\n|||]: 1 for k in ['K', 'k10', '_x', 'a'] })";
+
+impl Scenario for C04Explain {
+	type Plan = ExplainPlan;
+	fn name(&self) -> &'static str {
+		"c04_explain"
+	}
+	fn property(&self) -> &'static str {
+		"C04"
+	}
+	fn components(&self) -> Value {
+		json!({
+			"real": ["the jrsonnet executable built from the working tree (dev profile, guard off) with --trace-format explaining: parser, evaluator, HiDocFormat and the hi-doc / annotated-string crates it renders with"],
+			"stub": []
+		})
+	}
+	fn check_teardown(&self) -> bool {
+		false
+	}
+	fn generate(&self, rng: &mut Rng, _tier: Tier) -> ExplainPlan {
+		let max_trace = *rng.pick(&[None, None, Some(0usize), Some(1), Some(5)]);
+		let probe = match rng.below(300) {
+			0..=2 => Some("F28"),
+			3..=5 => Some("F30"),
+			6 => Some("F31"),
+			7..=12 => Some("eof"),
+			_ => None,
+		};
+		let source = match probe {
+			Some("F28") => format!("{}\r", rng.pick(&["", "local x = 1; x +", "{ a: 1 }", "["])),
+			Some("F30") => format!("local f(x) = if x == 0 then error 'e' else f(\n x - 1); f({})", rng.range(5, 30)),
+			Some("F31") => F31_PROGRAM.to_owned(),
+			Some(_) => (*rng.pick(&["{ a: std.toSt", "[1, 2", "local x = 'é", "{ a: 1,", "(", "local f(x) = x; f("])).to_owned(),
+			None => {
+				let base = loop {
+					let p = gen_prog(rng);
+					if p.ext.is_empty() && p.tla.is_empty() && p.libs.is_empty() {
+						break p;
+					}
+				};
+				// two in three are damaged; some are spread over several lines (spans that cross line breaks)
+				let mut src = if rng.chance(2, 3) { crate::mutate::mutate(&base.code, rng) } else { base.code };
+				if rng.chance(1, 3) {
+					let nl = *rng.pick(&["\n", "\n  ", "\r\n"]);
+					src = src.replace(", ", &format!(",{nl}")).replace("; ", &format!(";{nl}"));
+				}
+				src
+			}
+		};
+		ExplainPlan {
+			source,
+			max_trace,
+			probe: probe.map(str::to_owned),
+		}
+	}
+	fn execute(&self, plan: &ExplainPlan, rec: &mut Recorder) {
+		let scratch = Scratch::new();
+		let file = scratch.path().join("prog.jsonnet");
+		std::fs::write(&file, &plan.source).expect("write program");
+		let mut args = vec!["--trace-format".to_owned(), "explaining".to_owned()];
+		if let Some(n) = plan.max_trace {
+			args.push("--max-trace".to_owned());
+			args.push(n.to_string());
+		}
+		args.push(file.to_string_lossy().into_owned());
+		let mut cfg = ChildCfg {
+			// rendering an error message takes milliseconds; two minutes means the renderer is looping
+			timeout: Duration::from_secs(120),
+			// the renderer's runaway loop (known finding F31) allocates without bound: let it fail early
+			rlimit_as: 384 << 20,
+			..Default::default()
+		};
+		cfg.env.push(("RUST_BACKTRACE".to_owned(), "1".to_owned()));
+		rec.op();
+		let out = run_child(&cli_bin("jrsonnet"), &args, &cfg, scratch.path());
+		let stderr = out.stderr_str();
+		rec.event(format!("probe={:?} max_trace={:?} {:?} -> {}", plan.probe, plan.max_trace, plan.source.chars().take(200).collect::<String>(), out.ended.describe()));
+		rec.state(hash_str(&format!("{}|{}", out.ended.describe(), stderr.lines().next().unwrap_or("").chars().take(30).collect::<String>())));
+		if plan.source.contains('\n') {
+			rec.nontrivial = true;
+		}
+		match &out.ended {
+			Ended::Exit(0) | Ended::Exit(1) => {}
+			other => {
+				// Known findings in the rendering crates (dependencies, outside /repo), keyed by call site and input shape
+				if stderr.contains("hi-doc-0.3.0/src/anomaly_fixer.rs:235") && stderr.contains("index out of bounds") && plan.source.ends_with('\r') {
+					rec.known("F28", "a source text that ends in a carriage return makes the explaining trace format (hi-doc crate, anomaly_fixer.rs) index out of bounds while rendering the error");
+					return;
+				}
+				if stderr.contains("annotated-string-0.3.0/src/annotated_range.rs:121") && plan.source.contains('\n') {
+					rec.known("F30", "trace frames whose span crosses a line break make the explaining trace format (hi-doc / annotated-string crates, annotated_range.rs remove()) panic while rendering the error");
+					return;
+				}
+				let looping = (stderr.contains("memory allocation of") && stderr.contains("hi_doc::single_line::draw_layer_single_annotation")) || *other == Ended::Timeout;
+				if looping && plan.source.contains('\n') {
+					rec.known("F31", "an error whose span crosses line breaks can send the explaining trace format (hi-doc single_line::draw_layer_single_annotation / annotated-string rope split) into a loop that allocates without bound");
+					return;
+				}
+				rec.violate(
+					"process-died",
+					&format!("explaining/{}", other.describe().split(' ').next().unwrap_or("")),
+					format!(
+						"jrsonnet --trace-format explaining (max-trace {:?}) on {:?}: {} ; stderr: {:?}",
+						plan.max_trace,
+						plan.source.chars().take(300).collect::<String>(),
+						other.describe(),
+						stderr.lines().filter(|l| !l.starts_with("   ")).take(6).collect::<Vec<_>>().join(" / ")
+					),
+				);
+			}
+		}
+	}
+	fn shrink(&self, plan: &ExplainPlan) -> Vec<ExplainPlan> {
+		let mut out = Vec::new();
+		if plan.max_trace.is_some() {
+			let mut p = plan.clone();
+			p.max_trace = None;
+			out.push(p);
+		}
+		let src = &plan.source;
+		let n = src.chars().count();
+		if n > 1 {
+			let mid = src.char_indices().nth(n / 2).map_or(src.len(), |(k, _)| k);
+			for cand in [src[..mid].to_owned(), src[mid..].to_owned()] {
+				let mut p = plan.clone();
+				p.source = cand;
+				p.probe = None;
+				out.push(p);
+			}
+			// drop single characters (short sources only)
+			if n <= 80 {
+				for (k, c) in src.char_indices() {
+					let mut p = plan.clone();
+					p.source = format!("{}{}", &src[..k], &src[k + c.len_utf8()..]);
+					p.probe = None;
+					out.push(p);
+				}
+			}
+		}
+		out
+	}
+}
+
+// ---------------------------------------------------------------------------------------------
 // The shipped executable vs recursion, frame limits and native stack sizes
 // ---------------------------------------------------------------------------------------------
 
